@@ -2733,3 +2733,1144 @@ Proof.
 Qed.
 
 End Upd.
+
+(* ---------- insert ---------- *)
+Lemma good_set_meta s sz mp d : good 1 s -> good 1 (set_meta s sz mp d).
+Proof. intros G. apply good_meta. auto. Qed.
+
+Lemma perm_nil_concat (l : list (list addr)) : Permutation (List.concat l) [] -> List.concat l = [].
+Proof. intros H. apply Permutation_nil. apply Permutation_sym. auto. Qed.
+
+(* a fresh leaf (or host node + path leaf): everything it uses is allocated now *)
+Lemma new_leaf_rep ri cm suffix s c add s1 :
+  good 1 s -> h_new_leaf ri cm suffix s = Ok ((c, add), s1) ->
+  add = snd (new_leaf ri cm suffix) /\
+  exists fpc, rep s1 c (fst (new_leaf ri cm suffix)) fpc /\ NoDup fpc /\ (forall x, In x fpc -> s_next s <= x) /\
+    (forall y, y < s_next s -> same_at s s1 y) /\ s_next s <= s_next s1 /\ meta_same s s1 /\ good 1 s1.
+Proof.
+  intros G H. unfold h_new_leaf, new_leaf in *.
+  destruct (Nat.ltb 0 (ri_hostsplit ri) && Nat.ltb cm (ri_hostsplit ri))%bool.
+  - (* host node above the path leaf *)
+    mbind H e s2 H2.
+    destruct (alloc_arr_ok 1 [] _ _ _ G (Forall_nil _) H2) as (G2 & _).
+    destruct (alloc_arr_eff _ _ _ _ H2) as (Ee & N2 & Fe & Oe & One & MS2). clear H2.
+    mbind H pc s3 H3.
+    assert (R0 : reps s2 [] [] []) by (simpl; auto).
+    destruct (new_node_rep _ _ _ _ _ _ _ _ _ G2 Fe R0 ltac:(simpl; tauto) H3) as (fps3 & Epc & N3 & Rpc & Perm3 & Old3 & MS3 & G3). clear H3.
+    apply perm_nil_concat in Perm3. rewrite Perm3 in Rpc.
+    mbind H a s4 H4.
+    assert (Vpc : Forall (V s3) [pc]) by (constructor; auto; unfold V; lia).
+    destruct (alloc_arr_ok 1 _ _ _ _ G3 Vpc H4) as (G4 & _).
+    destruct (alloc_arr_eff _ _ _ _ H4) as (Ea & N4 & Fa & Oa & Ona & MS4). clear H4.
+    mbind H c0 s5 H5. apply ret_ok in H. destruct H as [H <-]. inversion H; subst c0 add; clear H.
+    assert (Rpc4 : rep s4 pc (Node (skipn (ri_hostsplit ri - cm) suffix) (Some (ri_route ri)) []) [pc; e]).
+    { eapply rep_frame; [exact Rpc|]. intros x Hx. split; [apply Ona|apply Oa]. simpl in Hx. lia. }
+    assert (R4 : reps s4 [pc] [Node (skipn (ri_hostsplit ri - cm) suffix) (Some (ri_route ri)) []] [[pc; e]]) by (simpl; auto).
+    destruct (new_node_rep _ _ _ _ _ _ _ _ _ G4 Fa R4 ltac:(simpl; lia) H5) as (fps5 & Ec & N5 & Rc & Perm5 & Old5 & MS5 & G5). clear H5.
+    split; auto. simpl in Perm5. try rewrite app_nil_r in Perm5.
+    exists (c :: a :: List.concat fps5). spl; auto.
+    + constructor; [|constructor].
+      * intros [Hx|Hx]; [lia|]. apply (Permutation_in _ Perm5) in Hx. simpl in Hx. lia.
+      * intros Hx. apply (Permutation_in _ Perm5) in Hx. simpl in Hx. lia.
+      * eapply Permutation_NoDup; [apply Permutation_sym; exact Perm5|]. constructor; [simpl; lia|]. constructor; auto. constructor.
+    + intros x [<-|[<-|Hx]]; try lia. apply (Permutation_in _ Perm5) in Hx. simpl in Hx. lia.
+    + intros y Ly. eapply same_at_trans; [|apply Old5; lia].
+      eapply same_at_trans; [|split; [apply Ona|apply Oa; lia]].
+      eapply same_at_trans; [|apply Old3; lia]. split; [apply One|apply Oe; lia].
+    + lia.
+    + eapply meta_same_trans; [exact MS2|]. eapply meta_same_trans; [exact MS3|]. eapply meta_same_trans; eauto.
+  - mbind H e s2 H2.
+    destruct (alloc_arr_ok 1 [] _ _ _ G (Forall_nil _) H2) as (G2 & _).
+    destruct (alloc_arr_eff _ _ _ _ H2) as (Ee & N2 & Fe & Oe & One & MS2). clear H2.
+    mbind H c0 s3 H3. apply ret_ok in H. destruct H as [H <-]. inversion H; subst c0 add; clear H.
+    assert (R0 : reps s2 [] [] []) by (simpl; auto).
+    destruct (new_node_rep _ _ _ _ _ _ _ _ _ G2 Fe R0 ltac:(simpl; tauto) H3) as (fps3 & Epc & N3 & Rpc & Perm3 & Old3 & MS3 & G3). clear H3.
+    apply perm_nil_concat in Perm3. rewrite Perm3 in Rpc. simpl in Rpc.
+    split; auto. exists [c; e]. spl; auto.
+    + constructor; [simpl; lia|]. constructor; auto. constructor.
+    + intros x [<-|[<-|[]]]; lia.
+    + intros y Ly. eapply same_at_trans; [|apply Old3; lia]. split; [apply One|apply Oe; lia].
+    + lia.
+    + eapply meta_same_trans; eauto.
+Qed.
+
+(* the case analysis of Tree.ins on the child c reached from a fully matched node *)
+Definition ins_child (f : nat) (ri : rinfo) (c : node) (cm depth : nat) (rest : bytes) : ins_res :=
+  let cp := common_prefix rest (nkey c) in
+  let lcp := List.length cp in
+  if Nat.eqb lcp (List.length (nkey c)) then
+    if Nat.eqb lcp (List.length rest) then
+      match nroute c with
+      | Some r => InsErr (ErrExist (rpat r))
+      | None => InsOk (Node (nkey c) (Some (ri_route ri)) (nchildren c)) 0
+      end
+    else ins f ri c (cm + lcp) (S depth) (skipn lcp rest)
+  else if Nat.eqb lcp (List.length rest) then
+    InsOk (Tree.new_node cp (Some (ri_route ri)) [Node (skipn lcp (nkey c)) (nroute c) (nchildren c)]) (S depth + 1)
+  else
+    let cm' := (cm + lcp)%nat in
+    if prefix_conflict (Nat.leb cm' (ri_hostsplit ri)) cp then InsErr (ErrConflict (route_conflict c))
+    else
+      let '(n1, add) := new_leaf ri cm' (skipn lcp rest) in
+      let n2 := Node (skipn lcp (nkey c)) (nroute c) (nchildren c) in
+      InsOk (Tree.new_node cp None [n1; n2]) (S depth + add).
+
+Lemma ins_step f ri k r kids cm depth c0 rest0 :
+  ins (S f) ri (Node k r kids) cm depth (c0 :: rest0) =
+  match find_child_from 0 c0 kids with
+  | None => let '(child, add) := new_leaf ri cm (c0 :: rest0) in
+            InsOk (Tree.new_node k r (kids ++ [child])) (depth + add)
+  | Some i =>
+      match nth_error kids i with
+      | None => InsErr (ErrConflict [])
+      | Some c => match ins_child f ri c cm depth (c0 :: rest0) with
+                  | InsOk c' d => InsOk (Node k r (replace_nth kids i c')) d
+                  | InsErr e => InsErr e
+                  end
+      end
+  end.
+Proof.
+  cbn [ins]. unfold find_child, ins_child. cbn [nchildren nkey nroute].
+  destruct (find_child_from 0 c0 kids) as [i|]; auto.
+  destruct (nth_error kids i) as [c|]; auto.
+  destruct (Nat.eqb _ (List.length (nkey c))).
+  - destruct (Nat.eqb _ (List.length (c0 :: rest0))).
+    + destruct (nroute c); auto.
+    + destruct (ins f ri c _ _ _); auto.
+  - destruct (Nat.eqb _ (List.length (c0 :: rest0))); auto.
+    destruct (prefix_conflict _ _); auto.
+    destruct (new_leaf ri _ _); auto.
+Qed.
+
+(* linking a freshly built subtree x into slot i of the in-place node q, after allocations only *)
+Lemma install s s4 q qo qch kids fps i c fc c0 x xn fx s' :
+  good 1 s -> find_node s q = Some qo -> find_arr s (n_arr qo) = Some qch -> reps s qch kids fps ->
+  NoDup (q :: n_arr qo :: List.concat fps) ->
+  nth_error kids i = Some c -> nth_error fps i = Some fc ->
+  hd_byte (nkey c) = Some c0 -> find_child_from 0 c0 kids = Some i ->
+  (forall y, y < s_next s -> same_at s s4 y) -> s_next s <= s_next s4 -> good 1 s4 ->
+  rep s4 x xn fx -> hd_byte (nkey xn) = Some c0 -> NoDup fx ->
+  (forall y, In y fx -> In y fc \/ s_next s <= y) ->
+  update_edge q x s4 = Ok (tt, s') ->
+  inplace_res s s' q qo fps (set_nth kids i xn) /\ meta_same s4 s'.
+Proof.
+  intros G Hq Hqch Hr ND Hi Hfi Hc0 Hfc Old Nx G4 Hx Hx0 NDx Sub H.
+  pose proof (good1_wf _ G) as Wf.
+  assert (Lall : Forall (V s) (q :: n_arr qo :: List.concat fps)).
+  { destruct (wf_node _ Wf _ _ Hq). constructor; auto. constructor; auto. eapply reps_lt; eauto. }
+  rewrite Forall_forall in Lall.
+  assert (SA : forall y, In y (q :: n_arr qo :: List.concat fps) -> same_at s s4 y) by (intros y Hy; apply Old; apply Lall; auto).
+  assert (Hq4 : find_node s4 q = Some qo) by (rewrite (proj1 (SA q ltac:(simpl; auto))); auto).
+  assert (Hqch4 : find_arr s4 (n_arr qo) = Some qch) by (rewrite (proj2 (SA _ ltac:(simpl; auto))); auto).
+  assert (Hr4 : reps s4 qch kids fps) by (eapply reps_frame; eauto; intros y Hy; apply SA; simpl; auto).
+  destruct (patch_child s4 q qo qch kids fps i c fc c0 x xn fx s' G4 Hq4 Hqch4 Hr4 ND Hi Hfi Hc0 Hfc Hx Hx0 NDx)
+    as (P1 & P2 & P3 & P4 & P5 & P6 & P7 & P8); auto.
+  { intros y Hy. destruct (Sub y Hy) as [?|Ly]; auto. right. intros Hin. apply Lall in Hin. unfold V in Hin. lia. }
+  split; auto.
+  exists (set_nth qch i x), (set_nth fps i fx). spl; auto.
+  - intros y Hy. destruct (in_concat_set_nth _ _ _ _ Hy) as [Hin|Hin]; auto.
+    destruct (Sub y Hin) as [?|?]; auto. left. eapply in_lconcat_nth; eauto.
+  - split; [lia|]. intros y Ly Ny. eapply same_at_trans; [apply Old; auto|]. apply P5. intros ->. apply Ny. simpl. auto.
+Qed.
+
+Lemma find_child_from_lt c kids : forall b i, find_child_from b c kids = Some i -> (i < b + List.length kids)%nat.
+Proof.
+  induction kids as [|k kids IH]; intros b i H; simpl in H; [discriminate|].
+  destruct (starts_with c (nkey k)); [inversion H; subst; simpl; lia|]. apply IH in H. simpl. lia.
+Qed.
+
+(* the part of tXn.insert after copyOnWriteSearch *)
+Section Ins.
+Variable evict : N -> list addr -> list addr.
+Hypothesis evict_sub : forall c w a, In a (evict c w) -> In a w.
+
+Definition K_ins (method : bytes) (rootNode : addr) (ri : rinfo) (r : sres) : M ins_out :=
+  mo <- get_node (r_matched r) ;;
+  match classify r (List.length (n_key mo)) with
+  | None => panic
+  | Some ExactMatch =>
+      match n_route mo with
+      | Some rt => ret (IExist (rpat rt))
+      | None =>
+          n <- new_node_from_ref (n_key mo) (Some (ri_route ri)) (n_arr mo) ;;
+          bump_size 1 ;;; upd_maxp (ri_pslen ri) ;;;
+          p <- opt_get (r_p r) ;; update_edge p n ;;; ret IOk
+      end
+  | Some KeyEndMidEdge =>
+      let cp := common_prefix (r_from r) (n_key mo) in
+      let suffix := skipn (List.length cp) (n_key mo) in
+      child <- new_node_from_ref suffix (n_route mo) (n_arr mo) ;;
+      a <- alloc_arr [child] ;;
+      parent <- new_node cp (Some (ri_route ri)) a ;;
+      bump_size 1 ;;; upd_maxp (ri_pslen ri) ;;; upd_depth (r_depth r + 1) ;;;
+      p <- opt_get (r_p r) ;; update_edge p parent ;;; ret IOk
+  | Some IncToEnd =>
+      '(child, add) <- h_new_leaf ri (r_cm r) (r_rest r) ;;
+      ch <- get_arr (n_arr mo) ;;
+      a <- alloc_arr (ch ++ [child]) ;;
+      n <- new_node (n_key mo) (n_route mo) a ;;
+      bump_size 1 ;;; upd_depth (r_depth r + add) ;;; upd_maxp (ri_pslen ri) ;;;
+      if Pos.eqb (r_matched r) rootNode then
+        set_key n method ;;; w_add_if_cache evict n ;;; update_root n ;;; ret IOk
+      else p <- opt_get (r_p r) ;; update_edge p n ;;; ret IOk
+  | Some IncToMiddle =>
+      let cp := common_prefix (r_from r) (n_key mo) in
+      if prefix_conflict (Nat.leb (r_cm r) (ri_hostsplit ri)) cp then ret (IConflict (r_matched r))
+      else
+        let suffix := skipn (List.length cp) (n_key mo) in
+        '(n1, add) <- h_new_leaf ri (r_cm r) (r_rest r) ;;
+        n2 <- new_node_from_ref suffix (n_route mo) (n_arr mo) ;;
+        a <- alloc_arr [n1; n2] ;;
+        n3 <- new_node cp None a ;;
+        bump_size 1 ;;; upd_depth (r_depth r + add) ;;; upd_maxp (ri_pslen ri) ;;;
+        p <- opt_get (r_p r) ;; update_edge p n3 ;;; ret IOk
+  end.
+
+Lemma h_insert_unfold method ri :
+  h_insert evict method ri =
+  (idx <- h_method_index method ;;
+   rootNode <- (match idx with
+                | None => e <- alloc_arr [] ;;
+                          rn <- alloc_node {| n_key := method; n_route := None; n_arr := e |} ;;
+                          add_root rn ;;; ret rn
+                | Some i => rs <- get_roots ;; opt_get (nth_error rs i)
+                end) ;;
+   r <- cow_search evict rootNode (rpat (ri_route ri)) ;; K_ins method rootNode ri r).
+Proof. reflexivity. Qed.
+
+(* what a step of insert below an in-place node q (child i) must establish *)
+Definition ins_post (s s' : st) (q : addr) (qo : nobj) (fps : list (list addr)) (kids : list node) (i : nat)
+           (ri : rinfo) (res : ins_res) (out : ins_out) : Prop :=
+  s_root s' = s_root s /\ s_cache s' = s_cache s /\
+  match res with
+  | InsOk c' d =>
+      out = IOk /\ inplace_res s s' q qo fps (set_nth kids i c') /\
+      s_size s' = (s_size s + 1)%Z /\ s_maxp s' = Nat.max (s_maxp s) (ri_pslen ri) /\ s_depth s' = Nat.max (s_depth s) d
+  | InsErr (ErrExist p) =>
+      out = IExist p /\ inplace_res s s' q qo fps kids /\
+      s_size s' = s_size s /\ s_maxp s' = s_maxp s /\ s_depth s' = s_depth s
+  | InsErr (ErrConflict ps) =>
+      exists a cn fpa, out = IConflict a /\ rep s' a cn fpa /\ route_conflict cn = ps /\
+      inplace_res s s' q qo fps kids /\
+      s_size s' = s_size s /\ s_maxp s' = s_maxp s /\ s_depth s' = s_depth s
+  end.
+
+Lemma hd_new_node k r l : hd_byte (nkey (Tree.new_node k r l)) = hd_byte k.
+Proof. reflexivity. Qed.
+
+(* incompleteMatchToEndOfEdge below an in-place node q: the matched child gets one more edge *)
+Lemma ins_base_end method rootNode ri s q qo qch kids fps i n nx c0 r out s' :
+  good 1 s -> find_node s q = Some qo -> find_arr s (n_arr qo) = Some qch -> reps s qch kids fps ->
+  NoDup (q :: n_arr qo :: List.concat fps) ->
+  nth_error kids i = Some n -> nth_error qch i = Some nx ->
+  hd_byte (nkey n) = Some c0 -> find_child_from 0 c0 kids = Some i ->
+  r_matched r = nx -> r_p r = Some q -> r_rest r <> [] -> r_cmin r = List.length (nkey n) -> nx <> rootNode ->
+  K_ins method rootNode ri r s = Ok (out, s') ->
+  ins_post s s' q qo fps kids i ri
+    (let '(child, add) := new_leaf ri (r_cm r) (r_rest r) in
+     InsOk (Tree.new_node (nkey n) (nroute n) (nchildren n ++ [child])) (r_depth r + add)) out.
+Proof.
+  intros G Hq Hqch Hr ND Hi Hnx Hc0 Hfc Hm Hp Hrest Hcmin Hroot H.
+  pose proof (good1_wf _ G) as Wf.
+  destruct (all3_nth _ _ _ _ _ _ Hr Hi) as (nx0 & fc & Hnx0 & Hfi & Hrep).
+  assert (nx0 = nx) by congruence. subst nx0.
+  destruct n as [kn rn kidsn]. cbn [nkey nroute nchildren] in *.
+  pose proof Hrep as Hrep0. apply rep_unfold in Hrep. destruct Hrep as (mo & mch & fpsn & Hmo & Hk & Hrr & Hmch & Hkidsn & Hfc').
+  assert (Lfc : forall y, In y fc -> y < s_next s).
+  { intros y Hy. pose proof (rep_lt _ Wf _ _ _ Hrep0) as L. rewrite Forall_forall in L. apply L. auto. }
+  unfold K_ins in H. rewrite Hm in H. mbind H mo2 s0 H0. apply get_node_ok in H0. destruct H0 as [-> Hmo2].
+  assert (mo2 = mo) by congruence. subst mo2. rewrite Hk, Hrr in H.
+  unfold classify in H. destruct (r_rest r) as [|x0 rest0] eqn:Erest; [congruence|].
+  rewrite Hcmin, Nat.eqb_refl in H. simpl orb in H. cbv iota in H.
+  mbind H cadd s1 H1. destruct cadd as [child add].
+  destruct (new_leaf_rep _ _ _ _ _ _ _ G H1) as (Eadd & fpc & Rc & NDc & Fc & Old1 & Nx1 & MS1 & G1). clear H1.
+  destruct (new_leaf ri (r_cm r) (x0 :: rest0)) as [childn add'] eqn:Enl. simpl in Eadd, Rc. subst add'.
+  assert (Vmch : n_arr mo < s_next s) by (apply Lfc; rewrite Hfc'; simpl; auto).
+  mbind H ch s2 H2. apply get_arr_ok in H2. destruct H2 as [-> Hch]. rewrite (proj2 (Old1 _ Vmch)) in Hch.
+  assert (ch = mch) by congruence. subst ch.
+  mbind H a s2 H2.
+  assert (Lfps : forall y, In y (List.concat fpsn) -> y < s_next s) by (intros y Hy; apply Lfc; rewrite Hfc'; simpl; auto).
+  assert (Hkidsn1 : reps s1 mch kidsn fpsn) by (eapply reps_frame; eauto; intros y Hy; apply Old1; auto).
+  pose proof (rep_lt _ (good1_wf _ G1) _ _ _ Rc) as Lc1. rewrite Forall_forall in Lc1.
+  destruct (rep_head _ _ _ _ Rc) as (tc & Efpc).
+  assert (Vch1 : Forall (V s1) (mch ++ [child])).
+  { apply Forall_app. split.
+    - eapply Forall_impl; [|exact (proj2 (wf_arr _ Wf _ _ Hmch))]. unfold V. intros; lia.
+    - constructor; auto. apply Lc1. rewrite Efpc. simpl. auto. }
+  destruct (alloc_arr_ok 1 _ _ _ _ G1 Vch1 H2) as (G2 & _).
+  destruct (alloc_arr_eff _ _ _ _ H2) as (Ea & N2 & Fa & Oa & Ona & MS2). clear H2.
+  assert (R2 : reps s2 (mch ++ [child]) (kidsn ++ [childn]) (fpsn ++ [fpc])).
+  { apply all3_app.
+    - eapply reps_frame; eauto. intros y Hy. split; [apply Ona|apply Oa]. apply Lfps in Hy. lia.
+    - simpl. split; auto. eapply rep_frame; eauto. intros y Hy. split; [apply Ona|apply Oa]. apply Lc1 in Hy. unfold V in Hy. lia. }
+  mbind H nn s3 H3.
+  assert (Na : ~ In a (List.concat (fpsn ++ [fpc]))).
+  { rewrite concat_app. simpl. rewrite app_nil_r. intros Hin. apply in_app_or in Hin. destruct Hin as [Hin|Hin].
+    - apply Lfps in Hin. lia. - apply Lc1 in Hin. unfold V in Hin. lia. }
+  destruct (new_node_rep _ _ _ _ _ _ _ _ _ G2 Fa R2 Na H3) as (fps3 & Enn & N3 & Rnn & Perm3 & Old3 & MS3 & G3). clear H3.
+  rewrite concat_app in Perm3. simpl in Perm3. rewrite app_nil_r in Perm3.
+  (* the three bookkeeping updates *)
+  cbn [bind bump_size upd_depth upd_maxp] in H.
+  match type of H with _ ?sm = _ => set (s4 := sm) in * end.
+  assert (G4 : good 1 s4) by (unfold s4; repeat apply good_set_meta; auto).
+  assert (SA34 : forall y, same_at s3 s4 y) by (intros y; split; reflexivity).
+  assert (E34 : Pos.eqb nx rootNode = false) by (apply Pos.eqb_neq; auto).
+  rewrite E34, Hp in H.
+  mbind H q0 s5 H5. apply opt_get_ok in H5. destruct H5 as [Hq0 ->]. inversion Hq0; subst q0; clear Hq0.
+  mbind H u s5 H5. apply ret_ok in H. destruct H as [-> <-]. destruct u.
+  assert (Old4 : forall y, y < s_next s -> same_at s s4 y).
+  { intros y Ly. eapply same_at_trans; [apply Old1; auto|]. eapply same_at_trans; [split; [apply Ona|apply Oa; lia]|].
+    eapply same_at_trans; [apply Old3; lia|]. apply SA34. }
+  assert (Rnn4 : rep s4 nn (Node kn rn (sort_nodes (kidsn ++ [childn]))) (nn :: a :: List.concat fps3)).
+  { apply (rep_frame s3 s4 _ _ _ Rnn). intros y _. apply SA34. }
+  assert (NDnn : NoDup (nn :: a :: List.concat fps3)).
+  { assert (NDo : NoDup (List.concat fpsn ++ fpc)).
+    { apply NoDup_app_intro; auto.
+      - assert (Dfp : NoDup (List.concat fps)) by (inversion ND as [|? ? ? T]; inversion T; auto).
+        pose proof (NoDup_concat_nth _ _ _ Dfp Hfi) as Nf. rewrite Hfc' in Nf.
+        inversion Nf as [|? ? ? T]; inversion T; auto.
+      - intros y Hy Hin. apply Lfps in Hy. apply Fc in Hin. lia. }
+    constructor; [|constructor].
+    - intros [Hin|Hin]; [lia|]. apply (Permutation_in _ Perm3) in Hin. apply in_app_or in Hin. destruct Hin as [Hin|Hin].
+      + apply Lfps in Hin. lia. + apply Lc1 in Hin. unfold V in Hin. lia.
+    - intros Hin. apply (Permutation_in _ Perm3) in Hin. apply in_app_or in Hin. destruct Hin as [Hin|Hin].
+      + apply Lfps in Hin. lia. + apply Lc1 in Hin. unfold V in Hin. lia.
+    - eapply Permutation_NoDup; [apply Permutation_sym; exact Perm3|auto]. }
+  destruct (install s s4 q qo qch kids fps i (Node kn rn kidsn) fc c0 nn _ _ s' G Hq Hqch Hr ND Hi Hfi Hc0 Hfc Old4
+              ltac:(unfold s4; simpl; lia) G4 Rnn4 Hc0 NDnn) as (IR & MS5); auto.
+  { intros y [<-|[<-|Hin]]; try (right; lia).
+    apply (Permutation_in _ Perm3) in Hin. apply in_app_or in Hin. destruct Hin as [Hin|Hin].
+    - left. rewrite Hfc'. simpl. auto. - right. apply Fc. auto. }
+  destruct MS1 as (A1 & A2 & A3 & A4 & A5). destruct MS2 as (B1 & B2 & B3 & B4 & B5).
+  destruct MS3 as (C1 & C2 & C3 & C4 & C5). destruct MS5 as (D1 & D2 & D3 & D4 & D5).
+  unfold ins_post. unfold s4 in *. simpl in D1, D2, D3, D4, D5.
+  spl; auto; try congruence; try lia.
+Qed.
+
+Lemma common_prefix_hd c0 rest0 t : hd_byte (common_prefix (c0 :: rest0) (c0 :: t)) = Some c0.
+Proof. simpl. rewrite Ascii.eqb_refl. reflexivity. Qed.
+
+Lemma skipn_len_lt {A} (l : list A) n : (n < List.length l)%nat -> skipn n l <> [].
+Proof. intros L E. apply skipn_nil_iff in E; lia. Qed.
+
+(* exactMatch / keyEndMidEdge / incompleteMatchToMiddleOfEdge at the child nx of an in-place node q *)
+Lemma ins_base_mid f method rootNode ri s q qo qch kids fps i c1 nx c0 rest0 r cm depth out s' :
+  good 1 s -> find_node s q = Some qo -> find_arr s (n_arr qo) = Some qch -> reps s qch kids fps ->
+  NoDup (q :: n_arr qo :: List.concat fps) ->
+  nth_error kids i = Some c1 -> nth_error qch i = Some nx ->
+  find_child_from 0 c0 kids = Some i ->
+  let rest := c0 :: rest0 in
+  let lcp := List.length (common_prefix rest (nkey c1)) in
+  r_matched r = nx -> r_p r = Some q -> r_from r = rest -> r_cmin r = lcp -> r_rest r = skipn lcp rest ->
+  r_depth r = S depth -> r_cm r = (cm + lcp)%nat ->
+  ~ (lcp = List.length (nkey c1) /\ (lcp < List.length rest)%nat) ->
+  K_ins method rootNode ri r s = Ok (out, s') ->
+  ins_post s s' q qo fps kids i ri (ins_child f ri c1 cm depth rest) out.
+Proof.
+  intros G Hq Hqch Hr ND Hi Hnx Hfc rest lcp Hm Hp Hfrom Hcmin Hrest Hdepth Hcm Hnot H.
+  pose proof (good1_wf _ G) as Wf.
+  assert (Hc0 : hd_byte (nkey c1) = Some c0) by (eapply find_child_hd; eauto).
+  destruct (all3_nth _ _ _ _ _ _ Hr Hi) as (nx0 & fc & Hnx0 & Hfi & Hrep).
+  assert (nx0 = nx) by congruence. subst nx0.
+  destruct c1 as [kc rc kidsc]. cbn [nkey nroute nchildren] in *.
+  destruct kc as [|k0 kc']; [discriminate|]. simpl in Hc0. inversion Hc0; subst k0; clear Hc0.
+  pose proof Hrep as Hrep0. apply rep_unfold in Hrep. destruct Hrep as (mo & mch & fpsc & Hmo & Hk & Hrr & Hmch & Hkidsc & Hfc').
+  assert (Lfc : forall y, In y fc -> y < s_next s).
+  { intros y Hy. pose proof (rep_lt _ Wf _ _ _ Hrep0) as L. rewrite Forall_forall in L. apply L. auto. }
+  assert (Lfps : forall y, In y (List.concat fpsc) -> y < s_next s) by (intros y Hy; apply Lfc; rewrite Hfc'; simpl; auto).
+  assert (NDfc : NoDup (nx :: n_arr mo :: List.concat fpsc)).
+  { assert (Dfp : NoDup (List.concat fps)) by (inversion ND as [|? ? ? T]; inversion T; auto).
+    pose proof (NoDup_concat_nth _ _ _ Dfp Hfi) as Nf. rewrite Hfc' in Nf. auto. }
+  assert (Llcp1 : (lcp <= List.length (c0 :: kc'))%nat /\ (lcp <= List.length rest)%nat).
+  { unfold lcp, rest. clear. generalize (c0 :: rest0) (c0 :: kc'). induction l as [|x l IH]; intros [|y l']; simpl; try lia.
+    destruct (Ascii.eqb x y); simpl; try lia. specialize (IH l'). lia. }
+  destruct Llcp1 as [Ll1 Ll2].
+  assert (Hcp0 : hd_byte (common_prefix rest (c0 :: kc')) = Some c0) by (apply common_prefix_hd).
+  unfold K_ins in H. rewrite Hm in H. mbind H mo2 s0 H0. apply get_node_ok in H0. destruct H0 as [-> Hmo2].
+  assert (mo2 = mo) by congruence. subst mo2. rewrite Hk, Hrr in H. rewrite Hfrom in H.
+  unfold ins_child. cbn [nkey nroute nchildren]. fold rest. fold lcp.
+  unfold classify in H. rewrite Hrest, Hcmin, Hp in H.
+  destruct (Nat.eqb_spec lcp (List.length (c0 :: kc'))) as [E1|E1].
+  - (* the whole edge matched: only the exact match is possible here *)
+    assert (E2 : lcp = List.length rest) by lia.
+    rewrite <- E2 at 1. rewrite Nat.eqb_refl.
+    assert (Esk : skipn lcp rest = []) by (apply skipn_nil_iff; auto).
+    rewrite Esk in H. cbv iota in H.
+    destruct rc as [rold|].
+    + apply ret_ok in H. destruct H as [-> ->]. unfold ins_post. spl; auto. eapply inplace_res_refl; eauto.
+    + mbind H x s1 H1.
+      destruct (nnfr_rep _ _ _ _ _ _ _ _ _ G Hmch Hkidsc H1) as (Ex & Nx & Rx & Oldx & MSx & Gx). clear H1.
+      cbn [bind bump_size upd_maxp] in H.
+      match type of H with _ ?sm = _ => set (s4 := sm) in * end.
+      assert (G4 : good 1 s4) by (unfold s4; repeat apply good_set_meta; auto).
+      mbind H q0 s5 H5. apply opt_get_ok in H5. destruct H5 as [Hq0 ->]. inversion Hq0; subst q0; clear Hq0.
+      mbind H u s5 H5. apply ret_ok in H. destruct H as [-> <-]. destruct u.
+      assert (Old4 : forall y, y < s_next s -> same_at s s4 y).
+      { intros y Ly. eapply same_at_trans; [apply Oldx; auto|]. split; reflexivity. }
+      assert (Rx4 : rep s4 x (Node (c0 :: kc') (Some (ri_route ri)) kidsc) (x :: n_arr mo :: List.concat fpsc)).
+      { apply (rep_frame s1 s4 _ _ _ Rx). intros y _. split; reflexivity. }
+      assert (NDx : NoDup (x :: n_arr mo :: List.concat fpsc)).
+      { inversion NDfc as [|? ? M1 M2]. constructor; auto. intros Hin. assert (x < s_next s).
+        { apply Lfc. rewrite Hfc'. right. auto. } lia. }
+      destruct (install s s4 q qo qch kids fps i (Node (c0 :: kc') None kidsc) fc c0 x _ _ s' G Hq Hqch Hr ND Hi Hfi eq_refl Hfc Old4
+                  ltac:(unfold s4; simpl; lia) G4 Rx4 eq_refl NDx) as (IR & MS5); auto.
+      { intros y [<-|Hin]; [right; lia|]. left. rewrite Hfc'. right. auto. }
+      destruct MSx as (C1 & C2 & C3 & C4 & C5). destruct MS5 as (D1 & D2 & D3 & D4 & D5).
+      unfold ins_post. unfold s4 in *. simpl in D1, D2, D3, D4, D5.
+      spl; auto; try congruence; try lia.
+  - assert (E1' : Nat.ltb lcp (List.length (c0 :: kc')) = true) by (apply Nat.ltb_lt; lia).
+    destruct (Nat.eqb_spec lcp (List.length rest)) as [E2|E2].
+    + (* keyEndMidEdge *)
+      assert (Esk : skipn lcp rest = []) by (apply skipn_nil_iff; auto).
+      rewrite Esk in H. fold lcp in H.
+      destruct (Nat.eqb_spec lcp (List.length (c0 :: kc'))); [lia|]. rewrite E1' in H.
+      cbv zeta in H. fold lcp in H.
+      mbind H child s1 H1.
+      destruct (nnfr_rep _ _ _ _ _ _ _ _ _ G Hmch Hkidsc H1) as (Ex & Nx & Rx & Oldx & MSx & Gx). clear H1.
+      mbind H a s2 H2.
+      assert (Vc : Forall (V s1) [child]) by (constructor; auto; unfold V; lia).
+      destruct (alloc_arr_ok 1 _ _ _ _ Gx Vc H2) as (G2 & _).
+      destruct (alloc_arr_eff _ _ _ _ H2) as (Ea & N2 & Fa & Oa & Ona & MS2). clear H2.
+      set (childn := Node (skipn lcp (c0 :: kc')) rc kidsc) in *.
+      assert (R2 : reps s2 [child] [childn] [child :: n_arr mo :: List.concat fpsc]).
+      { simpl. split; auto. apply (rep_frame s1 s2 _ _ _ Rx). intros y Hy. split; [apply Ona|apply Oa].
+        destruct Hy as [<-|[<-|Hy]]; try lia. - assert (n_arr mo < s_next s) by (apply Lfc; rewrite Hfc'; simpl; auto). lia.
+        - apply Lfps in Hy. lia. }
+      mbind H parent s3 H3.
+      assert (Na : ~ In a (List.concat [child :: n_arr mo :: List.concat fpsc])).
+      { simpl. rewrite app_nil_r. intros [Hin|[Hin|Hin]]; try lia.
+        - assert (n_arr mo < s_next s) by (apply Lfc; rewrite Hfc'; simpl; auto). lia.
+        - apply Lfps in Hin. lia. }
+      destruct (new_node_rep _ _ _ _ _ _ _ _ _ G2 Fa R2 Na H3) as (fps3 & Enn & N3 & Rnn & Perm3 & Old3 & MS3 & G3). clear H3.
+      simpl in Perm3. rewrite app_nil_r in Perm3.
+      cbn [bind bump_size upd_maxp upd_depth] in H.
+      match type of H with _ ?sm = _ => set (s4 := sm) in * end.
+      assert (G4 : good 1 s4) by (unfold s4; repeat apply good_set_meta; auto).
+      mbind H q0 s5 H5. apply opt_get_ok in H5. destruct H5 as [Hq0 ->]. inversion Hq0; subst q0; clear Hq0.
+      mbind H u s5 H5. apply ret_ok in H. destruct H as [-> <-]. destruct u.
+      assert (Old4 : forall y, y < s_next s -> same_at s s4 y).
+      { intros y Ly. eapply same_at_trans; [apply Oldx; auto|]. eapply same_at_trans; [split; [apply Ona|apply Oa; lia]|].
+        eapply same_at_trans; [apply Old3; lia|]. split; reflexivity. }
+      assert (Rnn4 : rep s4 parent (Node (common_prefix rest (c0 :: kc')) (Some (ri_route ri)) (sort_nodes [childn])) (parent :: a :: List.concat fps3)).
+      { apply (rep_frame s3 s4 _ _ _ Rnn). intros y _. split; reflexivity. }
+      assert (NDnn : NoDup (parent :: a :: List.concat fps3)).
+      { assert (NDo : NoDup (child :: n_arr mo :: List.concat fpsc)).
+        { inversion NDfc as [|? ? M1 M2]. constructor; auto. intros Hin. assert (child < s_next s).
+          { apply Lfc. rewrite Hfc'. right. auto. } lia. }
+        assert (Lo : forall y, In y (child :: n_arr mo :: List.concat fpsc) -> y < a).
+        { intros y [<-|Hy]; [lia|]. assert (y < s_next s) by (apply Lfc; rewrite Hfc'; right; auto). lia. }
+        constructor; [|constructor].
+        - intros [Hin|Hin]; [lia|]. apply (Permutation_in _ Perm3) in Hin. apply Lo in Hin. lia.
+        - intros Hin. apply (Permutation_in _ Perm3) in Hin. apply Lo in Hin. lia.
+        - eapply Permutation_NoDup; [apply Permutation_sym; exact Perm3|auto]. }
+      destruct (install s s4 q qo qch kids fps i (Node (c0 :: kc') rc kidsc) fc c0 parent _ _ s' G Hq Hqch Hr ND Hi Hfi eq_refl Hfc Old4
+                  ltac:(unfold s4; simpl; lia) G4 Rnn4 Hcp0 NDnn) as (IR & MS5); auto.
+      { intros y [<-|[<-|Hin]]; try (right; lia).
+        apply (Permutation_in _ Perm3) in Hin. destruct Hin as [<-|Hin]; [right; lia|]. left. rewrite Hfc'. right. auto. }
+      destruct MSx as (A1 & A2 & A3 & A4 & A5). destruct MS2 as (B1 & B2 & B3 & B4 & B5).
+      destruct MS3 as (C1 & C2 & C3 & C4 & C5). destruct MS5 as (D1 & D2 & D3 & D4 & D5).
+      unfold ins_post. unfold s4 in *. simpl in D1, D2, D3, D4, D5. rewrite Hdepth in *.
+      spl; auto; try congruence; try lia.
+    + (* incompleteMatchToMiddleOfEdge *)
+      assert (Hne : skipn lcp rest <> []) by (apply skipn_len_lt; lia).
+      destruct (skipn lcp rest) as [|x0 rest'] eqn:Esk; [congruence|].
+      destruct (Nat.eqb_spec lcp (List.length (c0 :: kc'))); [lia|]. simpl orb in H. cbv iota in H. rewrite E1' in H.
+      cbv zeta in H. fold lcp in H. rewrite Hcm in H.
+      destruct (prefix_conflict (Nat.leb (cm + lcp) (ri_hostsplit ri)) (common_prefix rest (c0 :: kc'))).
+      * apply ret_ok in H. destruct H as [-> ->]. unfold ins_post. spl; auto.
+        exists nx, (Node (c0 :: kc') rc kidsc), fc. spl; auto. eapply inplace_res_refl; eauto.
+      * mbind H cadd s1 H1. destruct cadd as [n1 add].
+        destruct (new_leaf_rep _ _ _ _ _ _ _ G H1) as (Eadd & fpc & Rc & NDc & Fc & Old1 & Nx1 & MS1 & G1). clear H1.
+        destruct (new_leaf ri (cm + lcp) (x0 :: rest')) as [n1n add'] eqn:Enl. simpl in Eadd, Rc. subst add'.
+        pose proof (rep_lt _ (good1_wf _ G1) _ _ _ Rc) as Lc1. rewrite Forall_forall in Lc1.
+        destruct (rep_head _ _ _ _ Rc) as (tc & Efpc).
+        assert (Vmch : n_arr mo < s_next s) by (apply Lfc; rewrite Hfc'; simpl; auto).
+        assert (Hmch1 : find_arr s1 (n_arr mo) = Some mch) by (rewrite (proj2 (Old1 _ Vmch)); auto).
+        assert (Hkidsc1 : reps s1 mch kidsc fpsc) by (eapply reps_frame; eauto; intros y Hy; apply Old1; auto).
+        mbind H n2 s2 H2.
+        destruct (nnfr_rep _ _ _ _ _ _ _ _ _ G1 Hmch1 Hkidsc1 H2) as (Ex & Nx & Rx & Oldx & MSx & Gx). clear H2.
+        mbind H a s3 H3.
+        assert (Vc : Forall (V s2) [n1; n2]).
+        { constructor; [|constructor; auto; unfold V; lia]. assert (V s1 n1) by (apply Lc1; rewrite Efpc; simpl; auto). unfold V in *. lia. }
+        destruct (alloc_arr_ok 1 _ _ _ _ Gx Vc H3) as (G3 & _).
+        destruct (alloc_arr_eff _ _ _ _ H3) as (Ea & N3 & Fa & Oa & Ona & MS3). clear H3.
+        set (n2n := Node (skipn lcp (c0 :: kc')) rc kidsc) in *.
+        assert (R3 : reps s3 [n1; n2] [n1n; n2n] [fpc; n2 :: n_arr mo :: List.concat fpsc]).
+        { simpl. spl; auto.
+          - apply (rep_frame s1 s3 _ _ _ Rc). intros y Hy. eapply same_at_trans; [apply Oldx|split; [apply Ona|apply Oa]].
+            + apply Lc1 in Hy. auto. + apply Lc1 in Hy. unfold V in Hy. lia.
+          - apply (rep_frame s2 s3 _ _ _ Rx). intros y Hy. split; [apply Ona|apply Oa].
+            destruct Hy as [<-|[<-|Hy]]; try lia. apply Lfps in Hy. lia. }
+        mbind H n3 s4' H4.
+        assert (Na : ~ In a (List.concat [fpc; n2 :: n_arr mo :: List.concat fpsc])).
+        { simpl. rewrite app_nil_r. intros Hin. apply in_app_or in Hin. destruct Hin as [Hin|[Hin|[Hin|Hin]]]; try lia.
+          - apply Lc1 in Hin. unfold V in Hin. lia. - apply Lfps in Hin. lia. }
+        destruct (new_node_rep _ _ _ _ _ _ _ _ _ G3 Fa R3 Na H4) as (fps4 & Enn & N4 & Rnn & Perm4 & Old4' & MS4 & G4'). clear H4.
+        simpl in Perm4. rewrite app_nil_r in Perm4.
+        cbn [bind bump_size upd_maxp upd_depth] in H.
+        match type of H with _ ?sm = _ => set (s4 := sm) in * end.
+        assert (G4 : good 1 s4) by (unfold s4; repeat apply good_set_meta; auto).
+        mbind H q0 s5 H5. apply opt_get_ok in H5. destruct H5 as [Hq0 ->]. inversion Hq0; subst q0; clear Hq0.
+        mbind H u s5 H5. apply ret_ok in H. destruct H as [-> <-]. destruct u.
+        assert (Old4 : forall y, y < s_next s -> same_at s s4 y).
+        { intros y Ly. eapply same_at_trans; [apply Old1; auto|]. eapply same_at_trans; [apply Oldx; lia|].
+          eapply same_at_trans; [split; [apply Ona|apply Oa; lia]|].
+          eapply same_at_trans; [apply Old4'; lia|]. split; reflexivity. }
+        assert (Rnn4 : rep s4 n3 (Node (common_prefix rest (c0 :: kc')) None (sort_nodes [n1n; n2n])) (n3 :: a :: List.concat fps4)).
+        { apply (rep_frame s4' s4 _ _ _ Rnn). intros y _. split; reflexivity. }
+        assert (Lo : forall y, In y (fpc ++ n2 :: n_arr mo :: List.concat fpsc) -> y < a).
+        { intros y Hy. apply in_app_or in Hy. destruct Hy as [Hy|[<-|Hy]]; try lia.
+          - apply Lc1 in Hy. unfold V in Hy. lia.
+          - assert (y < s_next s) by (apply Lfc; rewrite Hfc'; right; auto). lia. }
+        assert (NDnn : NoDup (n3 :: a :: List.concat fps4)).
+        { assert (NDo : NoDup (fpc ++ n2 :: n_arr mo :: List.concat fpsc)).
+          { apply NoDup_app_intro; auto.
+            - inversion NDfc as [|? ? M1 M2]. constructor; auto. intros Hin. assert (n2 < s_next s).
+              { apply Lfc. rewrite Hfc'. right. auto. } lia.
+            - intros y Hy Hin. pose proof (Fc _ Hy) as Ly. destruct Hin as [<-|Hin].
+              + apply Lc1 in Hy. unfold V in Hy. lia.
+              + assert (y < s_next s) by (apply Lfc; rewrite Hfc'; right; auto). lia. }
+          constructor; [|constructor].
+          - intros [Hin|Hin]; [lia|]. apply (Permutation_in _ Perm4) in Hin. apply Lo in Hin. lia.
+          - intros Hin. apply (Permutation_in _ Perm4) in Hin. apply Lo in Hin. lia.
+          - eapply Permutation_NoDup; [apply Permutation_sym; exact Perm4|auto]. }
+        destruct (install s s4 q qo qch kids fps i (Node (c0 :: kc') rc kidsc) fc c0 n3 _ _ s' G Hq Hqch Hr ND Hi Hfi eq_refl Hfc Old4
+                    ltac:(unfold s4; simpl; lia) G4 Rnn4 Hcp0 NDnn) as (IR & MS5); auto.
+        { intros y [<-|[<-|Hin]]; try (right; lia).
+          apply (Permutation_in _ Perm4) in Hin. apply in_app_or in Hin. destruct Hin as [Hin|[<-|Hin]].
+          - right. apply Fc. auto. - right. lia. - left. rewrite Hfc'. right. auto. }
+        destruct MS1 as (Z1 & Z2 & Z3 & Z4 & Z5).
+        destruct MSx as (A1 & A2 & A3 & A4 & A5). destruct MS3 as (B1 & B2 & B3 & B4 & B5).
+        destruct MS4 as (C1 & C2 & C3 & C4 & C5). destruct MS5 as (D1 & D2 & D3 & D4 & D5).
+        unfold ins_post. unfold s4 in *. simpl in D1, D2, D3, D4, D5. rewrite Hdepth in *.
+        spl; auto; try congruence; try lia.
+Qed.
+
+(* a result below the relinked child p' of p, seen from p and from the state before the relink *)
+Lemma lift_inplace s s1 s' p po pch kidsP fpsP j cur fpn p' co' fpsn2 kn rn kidsn kids' :
+  frame s s1 [n_arr po] -> sub_fresh s fpn (p' :: n_arr co' :: List.concat fpsn2) ->
+  nth_error fpsP j = Some fpn -> nth_error pch j = Some cur -> nth_error kidsP j = Some (Node kn rn kidsn) ->
+  good 1 s1 -> find_node s1 p = Some po -> find_arr s1 (n_arr po) = Some (set_nth pch j p') ->
+  reps s1 (set_nth pch j p') kidsP (set_nth fpsP j (p' :: n_arr co' :: List.concat fpsn2)) ->
+  NoDup (p :: n_arr po :: List.concat (set_nth fpsP j (p' :: n_arr co' :: List.concat fpsn2))) ->
+  n_key co' = kn -> n_route co' = rn ->
+  inplace_res s1 s' p' co' fpsn2 kids' ->
+  inplace_res s s' p po fpsP (set_nth kidsP j (Node kn rn kids')).
+Proof.
+  intros Fr1 SF1 Hfj Hcur Hj G1 Hpo1 Hpch1 HrP1 ND1 Hk' Hr' IR.
+  apply (inplace_res_pre s s1 s' p po fpsP (set_nth fpsP j (p' :: n_arr co' :: List.concat fpsn2)) _ [n_arr po] Fr1).
+  - intros x [<-|[]]. simpl. auto.
+  - intros x Hx. destruct (in_concat_set_nth _ _ _ _ Hx) as [Hi|Hi]; auto.
+    destruct (SF1 x Hi) as [Hi'|Hi']; auto. left. eapply in_lconcat_nth; eauto.
+  - eapply ascend; eauto.
+    + eapply nth_set_nth_eq; eauto.
+    + eapply nth_set_nth_eq; eauto.
+Qed.
+
+Definition ins_lift (kn : bytes) (rn : option route) (kidsn : list node) (i : nat) (res : ins_res) : ins_res :=
+  match res with InsOk c' d => InsOk (Node kn rn (set_nth kidsn i c')) d | InsErr e => InsErr e end.
+
+Lemma ins_post_lift s s1 s' p po pch kidsP fpsP j cur fpn p' co' fpsn2 kn rn kidsn i ri res out :
+  frame s s1 [n_arr po] -> sub_fresh s fpn (p' :: n_arr co' :: List.concat fpsn2) ->
+  nth_error fpsP j = Some fpn -> nth_error pch j = Some cur -> nth_error kidsP j = Some (Node kn rn kidsn) ->
+  good 1 s1 -> find_node s1 p = Some po -> find_arr s1 (n_arr po) = Some (set_nth pch j p') ->
+  reps s1 (set_nth pch j p') kidsP (set_nth fpsP j (p' :: n_arr co' :: List.concat fpsn2)) ->
+  NoDup (p :: n_arr po :: List.concat (set_nth fpsP j (p' :: n_arr co' :: List.concat fpsn2))) ->
+  n_key co' = kn -> n_route co' = rn -> meta_same s s1 ->
+  ins_post s1 s' p' co' fpsn2 kidsn i ri res out ->
+  ins_post s s' p po fpsP kidsP j ri (ins_lift kn rn kidsn i res) out.
+Proof.
+  intros Fr1 SF1 Hfj Hcur Hj G1 Hpo1 Hpch1 HrP1 ND1 Hk' Hr' (M1 & M2 & M3 & M4 & M5) (R & C & P).
+  assert (L : forall kids', inplace_res s1 s' p' co' fpsn2 kids' -> inplace_res s s' p po fpsP (set_nth kidsP j (Node kn rn kids')))
+    by (intros; eapply lift_inplace; eauto).
+  assert (LI : inplace_res s1 s' p' co' fpsn2 kidsn -> inplace_res s s' p po fpsP kidsP).
+  { intros IR. pose proof (L _ IR) as X. rewrite (set_nth_same kidsP j _ Hj) in X. exact X. }
+  unfold ins_post, ins_lift. split; [congruence|]. split; [congruence|].
+  destruct res as [c' d|[ex|ps]].
+  - destruct P as (-> & IR & Z & Mp & D). spl; auto; congruence.
+  - destruct P as (-> & IR & Z & Mp & D). spl; auto; congruence.
+  - destruct P as (a & cn & fpa & -> & Ra & Rc & IR & Z & Mp & D). exists a, cn, fpa. spl; auto; congruence.
+Qed.
+
+Definition ins_sim_stmt (method : bytes) (rootNode : addr) (ri : rinfo) (fuel : nat) : Prop :=
+  forall s p po pch kidsP fpsP j cur n fpn cn pp ppp rest from cm depth out s',
+  good 1 s ->
+  find_node s p = Some po -> find_arr s (n_arr po) = Some pch -> reps s pch kidsP fpsP ->
+  NoDup (p :: n_arr po :: List.concat fpsP) ->
+  nth_error kidsP j = Some n -> nth_error pch j = Some cur -> nth_error fpsP j = Some fpn ->
+  hd_byte (nkey n) = Some cn -> find_child_from 0 cn kidsP = Some j ->
+  rest <> [] -> ~ In rootNode (List.concat fpsP) ->
+  (r <- cow_loop evict fuel cur (Some p) pp ppp rest from cm (List.length (nkey n)) depth ;; K_ins method rootNode ri r) s = Ok (out, s') ->
+  ins_post s s' p po fpsP kidsP j ri (ins fuel ri n cm depth rest) out.
+
+Lemma ins_below method rootNode ri f s1 p' co' cch kidsn fpsn i nx c1 fc1 c rest0 pp' ppp' cm depth out s' :
+  ins_sim_stmt method rootNode ri f ->
+  good 1 s1 -> find_node s1 p' = Some co' -> find_arr s1 (n_arr co') = Some cch -> reps s1 cch kidsn fpsn ->
+  NoDup (p' :: n_arr co' :: List.concat fpsn) ->
+  nth_error kidsn i = Some c1 -> nth_error cch i = Some nx -> nth_error fpsn i = Some fc1 ->
+  find_child_from 0 c kidsn = Some i -> ~ In rootNode (List.concat fpsn) ->
+  match key_of nx s1 with
+  | Ok (key, s2) =>
+      let '(n, rest', brk) := match_key key (c :: rest0) in
+      if brk then K_ins method rootNode ri
+                    {| r_matched := nx; r_p := Some p'; r_pp := pp'; r_ppp := ppp'; r_rest := rest'; r_from := c :: rest0;
+                       r_cm := cm + n; r_cmin := n; r_depth := S depth |} s2
+      else (r <- cow_loop evict f nx (Some p') pp' ppp' rest' (c :: rest0) (cm + n) n (S depth) ;; K_ins method rootNode ri r) s2
+  | Panic => Panic | Oof => Oof
+  end = Ok (out, s') ->
+  ins_post s1 s' p' co' fpsn kidsn i ri (ins_child f ri c1 cm depth (c :: rest0)) out.
+Proof.
+  intros IH G1 Hp' Hcch' Hkids' ND' Hc1 Hnx Hfc1' Hfi Hroot H.
+  destruct (all3_nth _ _ _ _ _ _ Hkids' Hc1) as (nx1 & fc1' & Hnx1 & Hfc1'' & Hrepc1).
+  assert (nx1 = nx) by congruence. subst nx1. assert (fc1' = fc1) by congruence. subst fc1'.
+  destruct (rep_key _ _ _ _ Hrepc1) as (nxo & Hnxo & Knx & Rnx).
+  assert (KO : key_of nx s1 = Ok (nkey c1, s1)).
+  { unfold key_of, bind, get_node. unfold find_node in Hnxo. rewrite Hnxo. unfold ret. rewrite Knx. auto. }
+  rewrite KO in H.
+  destruct (match_key (nkey c1) (c :: rest0)) as [[m rest'] brk] eqn:MK.
+  destruct (match_key_spec _ _ _ _ _ MK) as (Em & Er & Lm1 & Lm2 & Bt & Bf).
+  assert (Hc0' : hd_byte (nkey c1) = Some c) by (eapply find_child_hd; eauto).
+  destruct brk.
+  - destruct (Bt eq_refl) as [B1 B2].
+    eapply (ins_base_mid f); eauto; cbn [r_matched r_p r_from r_cmin r_rest r_depth r_cm]; auto; try congruence.
+    rewrite <- Em. lia.
+  - destruct rest' as [|x rest''].
+    + assert (Em2 : m = List.length (c :: rest0)).
+      { symmetry in Er. apply skipn_nil_iff in Er; auto. }
+      destruct f as [|f']; [simpl in H; discriminate|]. simpl in H.
+      unfold bind at 1 in H. unfold ret at 1 in H.
+      eapply (ins_base_mid (S f')); eauto; cbn [r_matched r_p r_from r_cmin r_rest r_depth r_cm]; auto; try congruence.
+      rewrite <- Em. lia.
+    + destruct (Bf eq_refl) as [B|B].
+      2:{ exfalso. assert (skipn m (c :: rest0) = []) by (apply skipn_nil_iff; auto). congruence. }
+      unfold ins_child. rewrite <- Em.
+      assert (E1 : Nat.eqb m (List.length (nkey c1)) = true) by (apply Nat.eqb_eq; lia).
+      assert (E2 : Nat.eqb m (List.length (c :: rest0)) = false).
+      { apply Nat.eqb_neq. intros E. assert (skipn m (c :: rest0) = []) by (apply skipn_nil_iff; auto; lia). congruence. }
+      rewrite E1, E2. rewrite <- Er. rewrite B in H.
+      replace m with (List.length (nkey c1)) by auto.
+      eapply IH; eauto. discriminate.
+Qed.
+
+Lemma ins_sim method rootNode ri fuel : ins_sim_stmt method rootNode ri fuel.
+Proof.
+  induction fuel as [|f IH]; intros s p po pch kidsP fpsP j cur n fpn cn pp ppp rest from cm depth out s'
+    G Hpo Hpch HrP ND Hj Hcur Hfj Hcn Hfc Hne Hroot H.
+  - simpl in H. discriminate.
+  - destruct rest as [|c rest0]; [congruence|]. rewrite cow_loop_unfold in H.
+    destruct (all3_nth _ _ _ _ _ _ HrP Hj) as (cur0 & fpn0 & Hc0 & Hf0 & Hrep).
+    assert (cur0 = cur) by congruence. assert (fpn0 = fpn) by congruence. subst cur0 fpn0.
+    destruct n as [kn rn kidsn].
+    destruct (get_edge_rep _ _ _ _ _ _ c Hrep) as (co & cch & fpsn & Hco & Hcch & Hkids & GE).
+    rewrite GE in H. rewrite ins_step. unfold find_child in *. cbn [nchildren nkey nroute] in *.
+    assert (Hcurne : cur <> rootNode).
+    { intros ->. apply Hroot. eapply in_lconcat_nth; eauto. destruct (rep_head _ _ _ _ Hrep) as (t & ->). simpl. auto. }
+    destruct (find_child_from 0 c kidsn) as [i|] eqn:Hfi.
+    2:{ match type of H with K_ins _ _ _ ?rr _ = _ =>
+          exact (ins_base_end method rootNode ri s p po pch kidsP fpsP j (Node kn rn kidsn) cur cn rr out s'
+                   G Hpo Hpch HrP ND Hj Hcur Hcn Hfc eq_refl eq_refl ltac:(discriminate) eq_refl Hcurne H)
+        end. }
+    destruct (nth_error cch i) as [nx|] eqn:Hnx.
+    2:{ destruct (nth_error kidsn i) as [cc|] eqn:Hcc.
+        - destruct (all3_nth _ _ _ _ _ _ Hkids Hcc) as (? & ? & Hx & _). congruence.
+        - exfalso. apply find_child_from_lt in Hfi. apply nth_error_None in Hcc. lia. }
+    destruct (all3_nth_a _ _ _ _ _ _ Hkids Hnx) as (c1 & fc & Hc1 & Hfc1 & Hrepc).
+    rewrite Hc1.
+    destruct (relink evict p cur s) as [[p' s1]| |] eqn:RL; try discriminate.
+    destruct (descend evict evict_sub s p po pch kidsP fpsP j cur (Node kn rn kidsn) fpn cn p' s1
+                G Hpo Hpch HrP ND Hj Hcur Hfj Hcn Hfc RL)
+      as (co2 & co' & cch2 & fpsn2 & Hco2 & Hcch2 & Hkids2 & Hfpn & Hp' & Hk' & Hr' & Hcch' & Hkids' & Hpo1 & Hpch1 & HrP1 & ND1 & Fr1 & SF1 & MS1 & G1).
+    assert (co2 = co) by congruence. subst co2. assert (cch2 = cch) by congruence. subst cch2.
+    cbn [nchildren nkey nroute] in *.
+    destruct (all3_nth _ _ _ _ _ _ Hkids' Hc1) as (nx1 & fc1 & Hnx1 & Hfc1' & Hrepc1).
+    assert (nx1 = nx) by congruence. subst nx1.
+    assert (ND' : NoDup (p' :: n_arr co' :: List.concat fpsn2)).
+    { assert (Dc : NoDup (List.concat (set_nth fpsP j (p' :: n_arr co' :: List.concat fpsn2))))
+        by (inversion ND1 as [|? ? ? T]; inversion T; auto).
+      eapply NoDup_concat_nth; [exact Dc|]. eapply nth_set_nth_eq; eauto. }
+    assert (Hroot' : ~ In rootNode (List.concat fpsn2)).
+    { intros Hin. apply Hroot. eapply in_lconcat_nth; eauto. rewrite Hfpn. simpl. auto. }
+    pose proof (ins_below method rootNode ri f s1 p' co' cch kidsn fpsn2 i nx c1 fc1 c rest0 (Some p) pp cm depth out s'
+                  IH G1 Hp' Hcch' Hkids' ND' Hc1 Hnx Hfc1' Hfi Hroot' H) as Post.
+    pose proof (ins_post_lift s s1 s' p po pch kidsP fpsP j cur fpn p' co' fpsn2 kn rn kidsn i ri _ out
+                  Fr1 SF1 Hfj Hcur Hj G1 Hpo1 Hpch1 HrP1 ND1 Hk' Hr' MS1 Post) as PL.
+    unfold ins_lift in PL. destruct (ins_child f ri c1 cm depth (c :: rest0)) as [c' d|e].
+    + rewrite <- set_nth_replace. exact PL.
+    + exact PL.
+Qed.
+
+End Ins.
+
+(* ---------- insert at the roots level ---------- *)
+Definition roots_rep (s : st) (roots : list node) : Prop :=
+  exists rs fps, find_arr s (s_root s) = Some rs /\ reps s rs roots fps /\
+                 NoDup (List.concat fps) /\ ~ In (s_root s) (List.concat fps).
+
+Lemma trep_roots s T : trep s T <->
+  roots_rep s (t_roots T) /\ s_size s = t_size T /\ s_maxp s = t_maxparams T /\ s_depth s = t_depth T.
+Proof.
+  unfold trep, roots_rep. split.
+  - intros (rs & fps & A & B & C & D & E). split; [exists rs, fps|]; tauto.
+  - intros ((rs & fps & A & B & C & D) & E). exists rs, fps. tauto.
+Qed.
+
+(* method roots: found under their own key, never routes themselves, and the four common verbs are present *)
+Definition roots_wf (rs : list node) : Prop :=
+  roots_ok rs /\ (4 <= List.length rs)%nat /\ (forall r, In r rs -> nroute r = None).
+
+Lemma find_key_from_spec m l : forall b i, find_key_from b m l = Some i ->
+  (b <= i)%nat /\ exists r, nth_error l (i - b) = Some r /\ nkey r = m.
+Proof.
+  induction l as [|x l IH]; intros b i H; simpl in H; [discriminate|].
+  destruct (bytes_eqb_spec (nkey x) m) as [E|E].
+  - inversion H; subst. split; [lia|]. replace (i - i)%nat with 0%nat by lia. simpl. eauto.
+  - destruct (IH _ _ H) as (L & r & Hr & Hk). split; [lia|]. exists r. split; auto.
+    replace (i - b)%nat with (S (i - S b)) by lia. simpl. auto.
+Qed.
+
+Lemma method_index_common m rs i : method_index rs m = Some i -> (i < 4)%nat -> m = nth i common_verbs [].
+Proof.
+  unfold method_index. intros H L.
+  destruct (bytes_eqb_spec m m_get) as [->|]; [inversion H; reflexivity|].
+  destruct (bytes_eqb_spec m m_post) as [->|]; [inversion H; reflexivity|].
+  destruct (bytes_eqb_spec m m_put) as [->|]; [inversion H; reflexivity|].
+  destruct (bytes_eqb_spec m m_delete) as [->|]; [inversion H; reflexivity|].
+  apply find_key_from_spec in H. lia.
+Qed.
+
+Lemma nth_skipn {A} (l : list A) k j : nth_error (skipn k l) j = nth_error l (k + j).
+Proof. revert l. induction k as [|k IH]; intros [|x l]; simpl; auto. destruct j; auto. Qed.
+
+Lemma method_index_custom m rs i : method_index rs m = Some i -> (4 <= i)%nat -> exists r, nth_error rs i = Some r /\ nkey r = m.
+Proof.
+  unfold method_index. intros H L.
+  destruct (bytes_eqb m m_get); [inversion H; lia|]. destruct (bytes_eqb m m_post); [inversion H; lia|].
+  destruct (bytes_eqb m m_put); [inversion H; lia|]. destruct (bytes_eqb m m_delete); [inversion H; lia|].
+  apply find_key_from_spec in H. destruct H as (_ & r & Hr & Hk). exists r. split; auto.
+  rewrite nth_skipn in Hr. replace (4 + (i - 4))%nat with i in Hr by lia. auto.
+Qed.
+
+Lemma method_index_key rs m i r : roots_ok rs -> method_index rs m = Some i -> nth_error rs i = Some r -> nkey r = m.
+Proof.
+  intros RO H Hr. destruct (Nat.lt_ge_cases i 4) as [L|L].
+  - rewrite (method_index_common _ _ _ H L). apply (method_index_common _ rs); auto.
+  - destruct (method_index_custom _ _ _ H L) as (r' & Hr' & Hk). congruence.
+Qed.
+
+Section InsRoot.
+Variable evict : N -> list addr -> list addr.
+Hypothesis evict_sub : forall c w a, In a (evict c w) -> In a w.
+
+(* incompleteMatchToEndOfEdge at the method root itself: n.key = method; writable.Add(n); updateRoot(n) *)
+Lemma ins_root_end method ri s rs roots fps i rn kr rr kidsr r out s' :
+  good 1 s -> find_arr s (s_root s) = Some rs -> reps s rs roots fps -> NoDup (List.concat fps) ->
+  ~ In (s_root s) (List.concat fps) ->
+  nth_error roots i = Some (Node kr rr kidsr) -> nth_error rs i = Some rn ->
+  method_index roots method = Some i -> kr = method ->
+  r_matched r = rn -> r_p r = None -> r_rest r <> [] ->
+  K_ins evict method rn ri r s = Ok (out, s') ->
+  let '(child, add) := new_leaf ri (r_cm r) (r_rest r) in
+  out = IOk /\ roots_rep s' (set_nth roots i (Tree.new_node kr rr (kidsr ++ [child]))) /\ good 1 s' /\
+  s_size s' = (s_size s + 1)%Z /\ s_maxp s' = Nat.max (s_maxp s) (ri_pslen ri) /\
+  s_depth s' = Nat.max (s_depth s) (r_depth r + add).
+Proof.
+  intros G Hrs Hr ND NR Hi Hrn MI Ekr Hm Hp Hrest H.
+  pose proof (good1_wf _ G) as Wf.
+  destruct (all3_nth _ _ _ _ _ _ Hr Hi) as (rn0 & fc & Hrn0 & Hfi & Hrep).
+  assert (rn0 = rn) by congruence. subst rn0.
+  pose proof Hrep as Hrep0. apply rep_unfold in Hrep. destruct Hrep as (mo & mch & fpsn & Hmo & Hk & Hrr & Hmch & Hkidsn & Hfc').
+  assert (Lall : Forall (V s) (List.concat fps)) by (eapply reps_lt; eauto). rewrite Forall_forall in Lall.
+  assert (Lfc : forall y, In y fc -> y < s_next s) by (intros y Hy; apply Lall; eapply in_lconcat_nth; eauto).
+  assert (Lfps : forall y, In y (List.concat fpsn) -> y < s_next s) by (intros y Hy; apply Lfc; rewrite Hfc'; simpl; auto).
+  destruct (wf_arr _ Wf _ _ Hrs) as [VR Frs].
+  unfold K_ins in H. rewrite Hm in H. mbind H mo2 s0 H0. apply get_node_ok in H0. destruct H0 as [-> Hmo2].
+  assert (mo2 = mo) by congruence. subst mo2. rewrite Hk, Hrr in H.
+  unfold classify in H. destruct (r_rest r) as [|x0 rest0] eqn:Erest; [congruence|].
+  rewrite Hp in H. rewrite Bool.orb_true_r in H. cbv iota in H.
+  mbind H cadd s1 H1. destruct cadd as [child add].
+  destruct (new_leaf_rep _ _ _ _ _ _ _ G H1) as (Eadd & fpc & Rc & NDc & Fc & Old1 & Nx1 & MS1 & G1). clear H1.
+  destruct (new_leaf ri (r_cm r) (x0 :: rest0)) as [childn add'] eqn:Enl. simpl in Eadd, Rc. subst add'.
+  assert (Vmch : n_arr mo < s_next s) by (apply Lfc; rewrite Hfc'; simpl; auto).
+  mbind H ch s2 H2. apply get_arr_ok in H2. destruct H2 as [-> Hch]. rewrite (proj2 (Old1 _ Vmch)) in Hch.
+  assert (ch = mch) by congruence. subst ch.
+  mbind H a s2 H2.
+  assert (Hkidsn1 : reps s1 mch kidsr fpsn) by (eapply reps_frame; eauto; intros y Hy; apply Old1; auto).
+  pose proof (rep_lt _ (good1_wf _ G1) _ _ _ Rc) as Lc1. rewrite Forall_forall in Lc1.
+  destruct (rep_head _ _ _ _ Rc) as (tc & Efpc).
+  assert (Vch1 : Forall (V s1) (mch ++ [child])).
+  { apply Forall_app. split.
+    - eapply Forall_impl; [|exact (proj2 (wf_arr _ Wf _ _ Hmch))]. unfold V. intros; lia.
+    - constructor; auto. apply Lc1. rewrite Efpc. simpl. auto. }
+  destruct (alloc_arr_ok 1 _ _ _ _ G1 Vch1 H2) as (G2 & _).
+  destruct (alloc_arr_eff _ _ _ _ H2) as (Ea & N2 & Fa & Oa & Ona & MS2). clear H2.
+  assert (R2 : reps s2 (mch ++ [child]) (kidsr ++ [childn]) (fpsn ++ [fpc])).
+  { apply all3_app.
+    - eapply reps_frame; eauto. intros y Hy. split; [apply Ona|apply Oa]. apply Lfps in Hy. lia.
+    - simpl. split; auto. eapply rep_frame; eauto. intros y Hy. split; [apply Ona|apply Oa]. apply Lc1 in Hy. unfold V in Hy. lia. }
+  mbind H nn s3 H3.
+  assert (Na : ~ In a (List.concat (fpsn ++ [fpc]))).
+  { rewrite concat_app. simpl. rewrite app_nil_r. intros Hin. apply in_app_or in Hin. destruct Hin as [Hin|Hin].
+    - apply Lfps in Hin. lia. - apply Lc1 in Hin. unfold V in Hin. lia. }
+  destruct (new_node_rep _ _ _ _ _ _ _ _ _ G2 Fa R2 Na H3) as (fps3 & Enn & N3 & Rnn & Perm3 & Old3 & MS3 & G3). clear H3.
+  rewrite concat_app in Perm3. simpl in Perm3. rewrite app_nil_r in Perm3.
+  cbn [bind bump_size upd_depth upd_maxp] in H.
+  match type of H with _ ?sm = _ => set (s4 := sm) in * end.
+  assert (G4 : good 1 s4) by (unfold s4; repeat apply good_set_meta; auto).
+  rewrite Pos.eqb_refl in H.
+  assert (Old4 : forall y, y < s_next s -> same_at s s4 y).
+  { intros y Ly. eapply same_at_trans; [apply Old1; auto|]. eapply same_at_trans; [split; [apply Ona|apply Oa; lia]|].
+    eapply same_at_trans; [apply Old3; lia|]. split; reflexivity. }
+  (* n.key = method *)
+  mbind H u5 s5 H5.
+  destruct (set_key_ok 1 _ _ _ _ _ G4 ltac:(lia) H5) as (G5 & _).
+  destruct (set_key_eff _ _ _ _ _ H5) as (o5 & Ho5 & Fn5 & On5 & Oa5 & Nx5 & MS5). clear H5.
+  pose proof Rnn as Rnn0. apply rep_unfold in Rnn. destruct Rnn as (no & nch & nfps & Hno & Hnk & Hnr & Hnch & Hnkids & Hnfp).
+  assert (o5 = no) by (unfold s4 in Ho5; simpl in Ho5; unfold find_node in *; simpl in *; congruence). subst o5.
+  inversion Hnfp as [[Ea' Efp3]]. 
+  assert (Lo : forall y, In y (List.concat fps3) -> y < a).
+  { intros y Hy. apply (Permutation_in _ Perm3) in Hy. apply in_app_or in Hy. destruct Hy as [Hy|Hy].
+    - apply Lfps in Hy. lia. - apply Lc1 in Hy. unfold V in Hy. lia. }
+  assert (Rnn5 : rep s5 nn (Node method rr (sort_nodes (kidsr ++ [childn]))) (nn :: a :: List.concat fps3)).
+  { apply rep_unfold. eexists _, nch, nfps. spl; [exact Fn5| | | | |]; simpl; auto.
+    - rewrite Oa5. unfold s4. simpl. exact Hnch.
+    - eapply reps_frame; [exact Hnkids|]. intros y Hy. split.
+      + rewrite On5; [reflexivity|]. rewrite <- Efp3 in Hy. apply Lo in Hy. lia.
+      + rewrite Oa5. reflexivity. }
+  mbind H u6 s6 H6. destruct (w_add_if_cache_eff _ _ _ _ _ H6) as (HS6 & MS6).
+  assert (O5 : own 1 s5 nn).
+  { split; [lia|]. eexists. split; [exact Fn5|]. simpl. lia. }
+  destruct (w_add_if_cache_ok evict evict_sub 1 _ _ _ _ G5 O5 H6) as (G6 & _). clear H6.
+  mbind H b s7 H7. apply ret_ok in H. destruct H as [-> <-].
+  assert (Vnn6 : V s6 nn).
+  { unfold V. destruct HS6 as (_ & _ & ->). rewrite Nx5. unfold s4. simpl. lia. }
+  destruct (update_root_ok 1 _ _ _ _ G6 Vnn6 H7) as (G7 & _).
+  (* the roots in s6 *)
+  assert (Old6 : forall y, y < s_next s -> same_at s s6 y).
+  { intros y Ly. eapply same_at_trans; [apply Old4; auto|]. eapply same_at_trans; [|apply heap_same_at; exact HS6].
+    split; [apply On5; lia|apply Oa5]. }
+  destruct MS1 as (A1 & A2 & A3 & A4 & A5). destruct MS2 as (B1 & B2 & B3 & B4 & B5).
+  destruct MS3 as (C1 & C2 & C3 & C4 & C5). destruct MS5 as (D1 & D2 & D3 & D4 & D5). destruct MS6 as (E1 & E2 & E3 & E4 & E5).
+  unfold s4 in *. simpl in D1, D2, D3, D4, D5, Nx5.
+  assert (Rt6 : s_root s6 = s_root s) by congruence.
+  assert (Hrs6 : find_arr s6 (s_root s6) = Some rs) by (rewrite Rt6, (proj2 (Old6 _ VR)); auto).
+  assert (Hr6 : reps s6 rs roots fps) by (eapply reps_frame; eauto; intros y Hy; apply Old6; apply Lall; auto).
+  assert (Fn6 : find_node s6 nn = Some {| n_key := method; n_route := n_route no; n_arr := n_arr no |})
+    by (rewrite (proj1 (heap_same_at _ _ nn HS6)); auto).
+  unfold update_root in H7.
+  mbind H7 kk s9 H9. unfold key_of in H9. mbind H9 o9 s10 H10. apply get_node_ok in H10. destruct H10 as [-> Ho9].
+  apply ret_ok in H9. destruct H9 as [-> ->]. rewrite Fn6 in Ho9. inversion Ho9; subst o9; clear Ho9. simpl in H7.
+  mbind H7 idx s9 H9. rewrite (h_method_index_rep _ _ _ _ _ Hrs6 Hr6) in H9. inversion H9; subst idx s9; clear H9.
+  rewrite MI in H7.
+  mbind H7 rs' s9 H9. unfold get_roots, bind, get_root, get_arr in H9. unfold find_arr in Hrs6. rewrite Hrs6 in H9.
+  inversion H9; subst rs' s9; clear H9. fold (find_arr s6 (s_root s6)) in Hrs6.
+  destruct (Nat.ltb i (List.length rs)); [|discriminate].
+  mbind H7 AR s9 H9.
+  destruct (alloc_arr_eff _ _ _ _ H9) as (EAR & N9 & FAR & OAR & ON9 & MS9). clear H9.
+  mbind H7 u3 s10 H10. apply ret_ok in H7. destruct H7 as [_ <-].
+  destruct (set_root_eff _ _ _ _ H10) as (HS10 & R10 & Z10 & P10 & D10 & C10). clear H10.
+  assert (N6 : s_next s6 = s_next s5) by (destruct HS6 as (_ & _ & ->); auto).
+  assert (SA : forall y, y < AR -> same_at s6 s' y).
+  { intros y Ly. eapply same_at_trans; [|apply heap_same_at; exact HS10]. split; [apply ON9|apply OAR; lia]. }
+  assert (Rnn' : rep s' nn (Node method rr (sort_nodes (kidsr ++ [childn]))) (nn :: a :: List.concat fps3)).
+  { eapply rep_frame; [exact Rnn5|]. intros y Hy. eapply same_at_trans; [apply heap_same_at; exact HS6|]. apply SA.
+    destruct Hy as [<-|[<-|Hy]]; try lia. apply Lo in Hy. lia. }
+  destruct MS9 as (F1 & F2 & F3 & F4 & F5).
+  split; auto. split.
+  - exists (set_nth rs i nn), (set_nth fps i (nn :: a :: List.concat fps3)). spl.
+    + rewrite R10. rewrite (proj2 (heap_same_at _ _ AR HS10)). auto.
+    + subst kr. unfold Tree.new_node. apply all3_set; auto.
+      eapply reps_frame; [exact Hr|]. intros y Hy. eapply same_at_trans; [apply Old6; apply Lall; auto|].
+      apply SA. apply Lall in Hy. unfold V in Hy. lia.
+    + eapply NoDup_concat_set_nth; eauto.
+      * assert (NDo : NoDup (List.concat fpsn ++ fpc)).
+        { apply NoDup_app_intro; auto.
+          - pose proof (NoDup_concat_nth _ _ _ ND Hfi) as Nf. rewrite Hfc' in Nf.
+            inversion Nf as [|? ? ? T]; inversion T; auto.
+          - intros y Hy Hin. apply Lfps in Hy. apply Fc in Hin. lia. }
+        constructor; [|constructor].
+        -- intros [Hin|Hin]; [lia|]. apply Lo in Hin. lia.
+        -- intros Hin. apply Lo in Hin. lia.
+        -- eapply Permutation_NoDup; [apply Permutation_sym; exact Perm3|auto].
+      * intros y [<-|[<-|Hin]].
+        -- right. intros Hin. apply Lall in Hin. unfold V in Hin. lia.
+        -- right. intros Hin. apply Lall in Hin. unfold V in Hin. lia.
+        -- apply (Permutation_in _ Perm3) in Hin. apply in_app_or in Hin. destruct Hin as [Hin|Hin].
+           ++ left. rewrite Hfc'. simpl. auto.
+           ++ right. intros Hin'. apply Lall in Hin'. apply Fc in Hin. unfold V in Hin'. lia.
+    + rewrite R10. intros Hin. destruct (in_concat_set_nth _ _ _ _ Hin) as [[Hx|[Hx|Hx]]|Hx]; try lia.
+      * apply Lo in Hx. lia.
+      * apply Lall in Hx. unfold V in Hx. lia.
+  - spl; auto; try congruence; try lia.
+Qed.
+
+End InsRoot.
+
+(* ---------- pure facts about the roots list ---------- *)
+Lemma find_key_from_app m l x : forall b,
+  find_key_from b m (l ++ [x]) =
+  match find_key_from b m l with
+  | Some i => Some i
+  | None => if bytes_eqb (nkey x) m then Some (b + List.length l)%nat else None
+  end.
+Proof.
+  induction l as [|y l IH]; intros b; simpl.
+  - rewrite Nat.add_0_r. reflexivity.
+  - destruct (bytes_eqb (nkey y) m); auto. rewrite IH. destruct (find_key_from (S b) m l); auto.
+    replace (S b + List.length l)%nat with (b + S (List.length l))%nat by lia. auto.
+Qed.
+
+Lemma skipn_app_le {A} (l l' : list A) k : (k <= List.length l)%nat -> skipn k (l ++ l') = skipn k l ++ l'.
+Proof. revert l. induction k as [|k IH]; intros [|x l] L; simpl in *; auto; try lia. apply IH. lia. Qed.
+
+Lemma method_index_app rs x m : (4 <= List.length rs)%nat ->
+  method_index (rs ++ [x]) m =
+  match method_index rs m with
+  | Some i => Some i
+  | None => if bytes_eqb (nkey x) m then Some (List.length rs) else None
+  end.
+Proof.
+  intros L. unfold method_index.
+  destruct (bytes_eqb m m_get); auto. destruct (bytes_eqb m m_post); auto.
+  destruct (bytes_eqb m m_put); auto. destruct (bytes_eqb m m_delete); auto.
+  rewrite skipn_app_le by auto. rewrite find_key_from_app.
+  destruct (find_key_from 4 m (skipn 4 rs)); auto.
+  rewrite skipn_length. replace (4 + (List.length rs - 4))%nat with (List.length rs) by lia. auto.
+Qed.
+
+Lemma roots_wf_app_new rs m : roots_wf rs -> method_index rs m = None -> roots_wf (rs ++ [empty_root m]).
+Proof.
+  intros (RO & L & RN) MI. split; [|split].
+  - intros i r Hr. rewrite method_index_app by auto.
+    destruct (Nat.lt_ge_cases i (List.length rs)) as [Li|Li].
+    + rewrite nth_error_app1 in Hr by auto. rewrite (RO _ _ Hr). auto.
+    + rewrite nth_error_app2 in Hr by auto. destruct (i - List.length rs)%nat as [|k] eqn:E; simpl in Hr.
+      * inversion Hr; subst r. simpl. rewrite MI. rewrite bytes_eqb_refl. f_equal. lia.
+      * destruct k; discriminate.
+  - rewrite app_length. simpl. lia.
+  - intros r Hr. apply in_app_or in Hr. destruct Hr as [Hr|[<-|[]]]; auto.
+Qed.
+
+Lemma roots_wf_set rs i r r' : roots_wf rs -> nth_error rs i = Some r -> nkey r' = nkey r -> nroute r' = None ->
+  roots_wf (set_nth rs i r').
+Proof.
+  intros (RO & L & RN) Hi Hk Hr.
+  assert (MI : forall m, method_index (set_nth rs i r') m = method_index rs m).
+  { intros m. unfold method_index.
+    destruct (bytes_eqb m m_get); auto. destruct (bytes_eqb m m_post); auto.
+    destruct (bytes_eqb m m_put); auto. destruct (bytes_eqb m m_delete); auto.
+    rewrite <- !find_eq_key. rewrite <- !skipn_map. f_equal. f_equal.
+    clear -Hi Hk. revert i Hi. induction rs as [|x rs IHr]; intros [|i] Hi; simpl in *; try discriminate; auto.
+    - inversion Hi; subst. rewrite Hk. reflexivity.
+    - f_equal. auto. }
+  split; [|split].
+  - intros k x Hx. rewrite MI. destruct (Nat.eq_dec k i) as [->|Hne].
+    + erewrite nth_set_nth_eq in Hx by eauto. inversion Hx; subst. rewrite Hk. apply RO. auto.
+    + rewrite nth_set_nth_ne in Hx by auto. apply RO. auto.
+  - rewrite set_nth_len. auto.
+  - intros x Hx. apply In_nth_error in Hx. destruct Hx as (k & Hx). destruct (Nat.eq_dec k i) as [->|Hne].
+    + erewrite nth_set_nth_eq in Hx by eauto. inversion Hx; subst. auto.
+    + rewrite nth_set_nth_ne in Hx by auto. apply RN. eapply nth_error_In; eauto.
+Qed.
+
+Lemma ins_key f ri n cm depth rest n' d : ins f ri n cm depth rest = InsOk n' d -> nkey n' = nkey n /\ nroute n' = nroute n.
+Proof.
+  destruct f as [|f]; [discriminate|]. destruct rest as [|c rest0]; [discriminate|]. destruct n as [k r kids].
+  rewrite ins_step. destruct (find_child_from 0 c kids) as [i|].
+  - destruct (nth_error kids i) as [c1|]; [|discriminate].
+    destruct (ins_child f ri c1 cm depth (c :: rest0)); [|discriminate]. intros H; inversion H; subst. auto.
+  - destruct (new_leaf ri cm (c :: rest0)). intros H; inversion H; subst. auto.
+Qed.
+
+Section InsTop.
+Variable evict : N -> list addr -> list addr.
+Hypothesis evict_sub : forall c w a, In a (evict c w) -> In a w.
+
+Definition ins_top_post (s s' : st) (roots : list node) (i : nat) (ri : rinfo) (res : ins_res) (out : ins_out) : Prop :=
+  good 1 s' /\
+  match res with
+  | InsOk root' d =>
+      out = IOk /\ roots_rep s' (set_nth roots i root') /\
+      s_size s' = (s_size s + 1)%Z /\ s_maxp s' = Nat.max (s_maxp s) (ri_pslen ri) /\ s_depth s' = Nat.max (s_depth s) d
+  | InsErr (ErrExist p) =>
+      out = IExist p /\ roots_rep s' roots /\ s_size s' = s_size s /\ s_maxp s' = s_maxp s /\ s_depth s' = s_depth s
+  | InsErr (ErrConflict ps) =>
+      exists a cn fpa, out = IConflict a /\ rep s' a cn fpa /\ route_conflict cn = ps /\
+      roots_rep s' roots /\ s_size s' = s_size s /\ s_maxp s' = s_maxp s /\ s_depth s' = s_depth s
+  end.
+
+Lemma insert_at_root m ri s rs roots fps i rn root out s' :
+  good 1 s -> find_arr s (s_root s) = Some rs -> reps s rs roots fps -> NoDup (List.concat fps) ->
+  ~ In (s_root s) (List.concat fps) -> roots_wf roots ->
+  method_index roots m = Some i -> nth_error roots i = Some root -> nth_error rs i = Some rn ->
+  (r <- cow_search evict rn (rpat (ri_route ri)) ;; K_ins evict m rn ri r) s = Ok (out, s') ->
+  rpat (ri_route ri) <> [] /\
+  ins_top_post s s' roots i ri (ins (S (List.length (rpat (ri_route ri)))) ri root 0 0 (rpat (ri_route ri))) out.
+Proof.
+  intros G Hrs Hr ND NR (RO & L4 & RN) MI Hroot Hrn H.
+  destruct (all3_nth _ _ _ _ _ _ Hr Hroot) as (rn0 & fpr & Hrn0 & Hfpr & Hrep).
+  assert (rn0 = rn) by congruence. subst rn0.
+  pose proof (method_index_key _ _ _ _ RO MI Hroot) as Ekr.
+  pose proof (RN _ (nth_error_In _ _ Hroot)) as Err.
+  destruct root as [kr rr kidsr]. cbn [nkey nroute] in Ekr, Err. subst rr.
+  unfold cow_search in H. set (path := rpat (ri_route ri)) in *.
+  destruct path as [|c rest0].
+  - (* empty pattern: the Go code dereferences a nil parent *)
+    exfalso. simpl in H. unfold bind at 1 in H. unfold ret at 1 in H. unfold K_ins in H. cbn [r_matched r_from r_p r_depth r_cm r_rest] in H.
+    mbind H mo s0 H0. apply get_node_ok in H0. destruct H0 as [-> Hmo].
+    apply rep_unfold in Hrep. destruct Hrep as (mo' & mch & fpsn & Hmo' & Hk & Hrr & _).
+    assert (mo' = mo) by congruence. subst mo'. rewrite Hrr in H.
+    unfold classify in H. cbn [r_rest r_cmin] in H.
+    destruct (Nat.eqb 0 (List.length (n_key mo))).
+    + mbind H x s1 H1. cbn [bind bump_size upd_maxp] in H. mbind H q s2 H2. discriminate.
+    + destruct (Nat.ltb 0 (List.length (n_key mo))); [|discriminate].
+      mbind H x s1 H1. mbind H a s2 H2. mbind H pa s3 H3. cbn [bind bump_size upd_maxp upd_depth] in H.
+      mbind H q s4 H4. discriminate.
+  - split; [discriminate|]. rewrite cow_loop_unfold_root in H.
+    destruct (get_edge_rep _ _ _ _ _ _ c Hrep) as (co & cch & fpsn & Hco & Hcch & Hkids & GE).
+    rewrite GE in H. simpl List.length. rewrite ins_step. unfold find_child in *. cbn [nchildren nkey nroute] in *.
+    destruct (find_child_from 0 c kidsr) as [i'|] eqn:Hfi.
+    2:{ (* the new edge is added at the method root *)
+      match type of H with K_ins _ _ _ _ ?rr _ = _ =>
+        pose proof (ins_root_end evict evict_sub m ri s rs roots fps i rn kr None kidsr rr out s'
+                      G Hrs Hr ND NR Hroot Hrn MI Ekr eq_refl eq_refl ltac:(discriminate) H) as P
+      end.
+      cbn [r_cm r_rest r_depth] in P. destruct (new_leaf ri 0 (c :: rest0)) as [child add].
+      destruct P as (-> & RR & G' & Z & P & D). unfold ins_top_post. spl; auto. }
+    destruct (nth_error cch i') as [nx|] eqn:Hnx.
+    2:{ destruct (nth_error kidsr i') as [cc|] eqn:Hcc.
+        - destruct (all3_nth _ _ _ _ _ _ Hkids Hcc) as (? & ? & Hx & _). congruence.
+        - exfalso. apply find_child_from_lt in Hfi. apply nth_error_None in Hcc. lia. }
+    destruct (all3_nth_a _ _ _ _ _ _ Hkids Hnx) as (c1 & fc & Hc1 & Hfc1 & Hrepc).
+    rewrite Hc1.
+    destruct (relink_root evict rn s) as [[p' s1]| |] eqn:RL; try discriminate.
+    destruct (descend_root evict evict_sub s rs roots fps i rn (Node kr None kidsr) fpr p' s1
+                G Hrs Hr ND NR Hroot Hrn Hfpr (RO _ _ Hroot) RL)
+      as (co2 & co' & cch2 & fpsn2 & Hco2 & Hcch2 & Hkids2 & Hfpn & Hp' & Hk' & Hr' & Hcch' & Hkids' & Hrs1 & Hr1 & ND1 & NR1 & Old1 & Nx1 & SF1 & Z1 & P1 & D1 & G1 & NDp' & NRp').
+    assert (co2 = co) by congruence. subst co2. assert (cch2 = cch) by congruence. subst cch2.
+    cbn [nchildren nkey nroute] in *.
+    destruct (all3_nth _ _ _ _ _ _ Hkids' Hc1) as (nx1 & fc1 & Hnx1 & Hfc1' & Hrepc1).
+    assert (nx1 = nx) by congruence. subst nx1.
+    assert (Hroot' : ~ In rn (List.concat fpsn2)).
+    { pose proof (NoDup_concat_nth _ _ _ ND Hfpr) as Nf. rewrite Hfpn in Nf. inversion Nf as [|? ? Hx _]. intros Hin. apply Hx. simpl. auto. }
+    pose proof (ins_below evict m rn ri _ s1 p' co' cch kidsr fpsn2 i' nx c1 fc1 c rest0 None None 0%nat 0%nat out s'
+                  (ins_sim evict evict_sub m rn ri _) G1 Hp' Hcch' Hkids' NDp' Hc1 Hnx Hfc1' Hfi Hroot' H) as (Rt & Ch & Post).
+    assert (Fin : forall kids', inplace_res s1 s' p' co' fpsn2 kids' ->
+                  roots_rep s' (set_nth roots i (Node kr None kids')) /\ good 1 s').
+    { intros kids' IR.
+      destruct (ascend_root s1 s' _ _ _ i p' co' fpsn2 kr None kidsr kids' G1 Hrs1 Hr1 ND1 NR1
+                  ltac:(eapply nth_set_nth_eq; eauto) Hroot ltac:(eapply nth_set_nth_eq; eauto) Hk' Hr' IR)
+        as (Hrs' & fps' & Hr'' & ND'' & NR'' & G').
+      split; auto. exists (set_nth rs i p'), fps'. rewrite Rt. spl; auto. }
+    assert (FinId : inplace_res s1 s' p' co' fpsn2 kidsr -> roots_rep s' roots /\ good 1 s').
+    { intros IR. destruct (Fin _ IR) as [X Y]. rewrite (set_nth_same roots i _ Hroot) in X. auto. }
+    unfold ins_top_post.
+    destruct (ins_child _ ri c1 0 0 (c :: rest0)) as [c' d|[ex|ps]].
+    + destruct Post as (-> & IR & Z & Mp & D). destruct (Fin _ IR) as [X Y]. rewrite <- set_nth_replace.
+      spl; auto; congruence.
+    + destruct Post as (-> & IR & Z & Mp & D). destruct (FinId IR) as [X Y]. spl; auto; congruence.
+    + destruct Post as (a & cn & fpa & -> & Ra & Rc & IR & Z & Mp & D). destruct (FinId IR) as [X Y].
+      split; auto. exists a, cn, fpa. spl; auto; congruence.
+Qed.
+
+End InsTop.
+
+Section InsThm.
+Variable evict : N -> list addr -> list addr.
+Hypothesis evict_sub : forall c w a, In a (evict c w) -> In a w.
+
+Theorem h_insert_refines m ri s T out s' :
+  good 1 s -> trep s T -> roots_wf (t_roots T) ->
+  h_insert evict m ri s = Ok (out, s') ->
+  good 1 s' /\
+  match insert T m ri with
+  | ROk T' => out = IOk /\ trep s' T' /\ roots_wf (t_roots T')
+  | RExist p => out = IExist p /\ trep s' T
+  | RConflict ps => exists a cn fpa, out = IConflict a /\ rep s' a cn fpa /\ route_conflict cn = ps /\ trep s' T
+  | RNotFound => False
+  end.
+Proof.
+  intros G TR WF H. pose proof TR as TR0. apply trep_roots in TR. destruct TR as ((rs & fps & Hrs & Hr & ND & NR) & Zs & Ps & Ds).
+  rewrite h_insert_unfold in H. unfold insert.
+  mbind H idx s0 H0. rewrite (h_method_index_rep _ _ _ _ _ Hrs Hr) in H0. inversion H0; subst idx s0; clear H0.
+  destruct (method_index (t_roots T) m) as [i|] eqn:MI.
+  - mbind H rn s0 H0. mbind H0 rs' s1 H1. unfold get_roots, bind, get_root, get_arr in H1. unfold find_arr in Hrs. rewrite Hrs in H1.
+    inversion H1; subst rs' s1; clear H1. fold (find_arr s (s_root s)) in Hrs.
+    apply opt_get_ok in H0. destruct H0 as [Hrn ->].
+    destruct (all3_nth_a _ _ _ _ _ _ Hr Hrn) as (root & fpr & Hroot & Hfpr & Hrep).
+    rewrite Hroot.
+    pose proof (insert_at_root evict evict_sub m ri s rs (t_roots T) fps i rn root out s' G Hrs Hr ND NR WF MI Hroot Hrn H) as (_ & G' & P).
+    split; auto.
+    destruct (ins (S (List.length (rpat (ri_route ri)))) ri root 0 0 (rpat (ri_route ri))) as [root' d|[ex|ps]] eqn:EI.
+    + destruct P as (-> & RR & Z & Mp & D). split; auto. rewrite <- set_nth_replace. split.
+      * apply trep_roots. simpl. spl; auto; try congruence; try lia.
+      * simpl. destruct (ins_key _ _ _ _ _ _ _ _ EI) as [K1 K2].
+        eapply roots_wf_set; eauto. rewrite K2. destruct WF as (_ & _ & RN). apply RN. eapply nth_error_In; eauto.
+    + destruct P as (-> & RR & Z & Mp & D). split; auto. apply trep_roots. spl; auto; congruence.
+    + destruct P as (a & cn & fpa & -> & Ra & Rc & RR & Z & Mp & D). exists a, cn, fpa. spl; auto.
+      apply trep_roots. spl; auto; congruence.
+  - (* a new method root *)
+    pose proof (good1_wf _ G) as Wf. destruct WF as (RO & L4 & RN).
+    mbind H rn s0 H0.
+    mbind H0 e s1 H1.
+    destruct (alloc_arr_ok 1 [] _ _ _ G (Forall_nil _) H1) as (G1 & _ & V1 & _).
+    destruct (alloc_arr_eff _ _ _ _ H1) as (Ee & N1 & Fe & Oe & One & MS1). clear H1.
+    mbind H0 rn0 s2 H2.
+    pose proof (fun pf => alloc_node_ok 1 _ _ _ _ G1 pf H2) as X. simpl in X. destruct (X V1) as (G2 & _ & V2 & _). clear X.
+    destruct (alloc_node_eff _ _ _ _ H2) as (En & N2 & Fn & On & Oa2 & MS2). clear H2.
+    mbind H0 u s3 H3. apply ret_ok in H0. destruct H0 as [<- <-].
+    destruct (add_root_ok 1 _ _ _ _ G2 V2 H3) as (G3 & _).
+    destruct MS1 as (A1 & A2 & A3 & A4 & A5). destruct MS2 as (B1 & B2 & B3 & B4 & B5).
+    assert (Lall : Forall (V s) (List.concat fps)) by (eapply reps_lt; eauto). rewrite Forall_forall in Lall.
+    destruct (wf_arr _ Wf _ _ Hrs) as [VR Frs].
+    assert (Old2 : forall y, y < s_next s -> same_at s s2 y).
+    { intros y Ly. split; [rewrite On by lia; apply One|rewrite Oa2; apply Oe; lia]. }
+    unfold add_root in H3. mbind H3 rs' s4 H4. unfold get_roots, bind, get_root, get_arr in H4.
+    assert (Hrs2 : find_arr s2 (s_root s2) = Some rs) by (rewrite B1, A1, (proj2 (Old2 _ VR)); auto).
+    unfold find_arr in Hrs2. rewrite Hrs2 in H4. inversion H4; subst rs' s4; clear H4.
+    mbind H3 AR s4 H4.
+    destruct (alloc_arr_eff _ _ _ _ H4) as (EAR & N4 & FAR & OAR & ON4 & MS4). clear H4.
+    destruct (set_root_eff _ _ _ _ H3) as (HS5 & R5 & Z5 & P5 & D5 & C5). clear H3.
+    destruct MS4 as (C1 & C2 & C3 & C4 & C5').
+    assert (SA : forall y, y < AR -> same_at s2 s0 y).
+    { intros y Ly. eapply same_at_trans; [|apply heap_same_at; exact HS5]. split; [apply ON4|apply OAR; lia]. }
+    assert (Hrs0 : find_arr s0 (s_root s0) = Some (rs ++ [rn])) by (rewrite R5, (proj2 (heap_same_at _ _ AR HS5)); auto).
+    assert (Hr0 : reps s0 (rs ++ [rn]) (t_roots T ++ [empty_root m]) (fps ++ [[rn; e]])).
+    { apply all3_app.
+      - eapply reps_frame; [exact Hr|]. intros y Hy. eapply same_at_trans; [apply Old2; apply Lall; auto|].
+        apply SA. apply Lall in Hy. unfold V in Hy. lia.
+      - simpl. split; auto. eexists _, [], []. spl.
+        + rewrite (proj1 (SA rn ltac:(lia))). exact Fn.
+        + reflexivity. + reflexivity.
+        + simpl. rewrite (proj2 (SA e ltac:(lia))). rewrite Oa2. exact Fe.
+        + simpl. auto.
+        + reflexivity. }
+    assert (ND0 : NoDup (List.concat (fps ++ [[rn; e]]))).
+    { rewrite concat_app. simpl. apply NoDup_app_intro; auto.
+      - constructor; [simpl; lia|]. constructor; auto. constructor.
+      - intros y Hy [<-|[<-|[]]]; apply Lall in Hy; unfold V in Hy; lia. }
+    assert (NR0 : ~ In (s_root s0) (List.concat (fps ++ [[rn; e]]))).
+    { rewrite R5, concat_app. simpl. intros Hin. apply in_app_or in Hin. destruct Hin as [Hin|[Hin|[Hin|[]]]]; try lia.
+      apply Lall in Hin. unfold V in Hin. lia. }
+    assert (WF0 : roots_wf (t_roots T ++ [empty_root m])) by (apply roots_wf_app_new; [split; auto|auto]).
+    assert (MI0 : method_index (t_roots T ++ [empty_root m]) m = Some (List.length (t_roots T))).
+    { rewrite method_index_app by auto. rewrite MI. simpl. rewrite bytes_eqb_refl. auto. }
+    destruct (all3_len _ _ _ _ Hr) as [Lrs _].
+    assert (Hroot0 : nth_error (t_roots T ++ [empty_root m]) (List.length (t_roots T)) = Some (empty_root m)).
+    { rewrite nth_error_app2 by lia. rewrite Nat.sub_diag. reflexivity. }
+    assert (Hrn0 : nth_error (rs ++ [rn]) (List.length (t_roots T)) = Some rn).
+    { rewrite nth_error_app2 by lia. rewrite <- Lrs, Nat.sub_diag. reflexivity. }
+    rewrite Hroot0.
+    pose proof (insert_at_root evict evict_sub m ri s0 _ _ _ _ rn _ out s' G3 Hrs0 Hr0 ND0 NR0 WF0 MI0 Hroot0 Hrn0 H) as (Hpne & G' & P).
+    split; auto.
+    destruct (ins (S (List.length (rpat (ri_route ri)))) ri (empty_root m) 0 0 (rpat (ri_route ri))) as [root' d|[ex|ps]] eqn:EI.
+    + destruct P as (-> & RR & Z & Mp & D). split; auto. rewrite <- set_nth_replace. split.
+      * apply trep_roots. simpl. spl; auto; try congruence; try lia.
+      * simpl. destruct (ins_key _ _ _ _ _ _ _ _ EI) as [K1 K2].
+        eapply roots_wf_set; eauto.
+    + exfalso. clear -EI. destruct (rpat (ri_route ri)) as [|c r0]; simpl in EI; [discriminate|].
+      destruct (new_leaf ri 0 (c :: r0)); discriminate.
+    + exfalso. clear -EI Hpne. destruct (rpat (ri_route ri)) as [|c r0]; [congruence|]. simpl in EI.
+      destruct (new_leaf ri 0 (c :: r0)); discriminate.
+Qed.
+
+End InsThm.
